@@ -122,10 +122,12 @@ func fidelityMain(args []string) {
 		// simulator can (short reads of regular files, stdin as a regular
 		// file): compare on the plain configuration
 		s.FileChunk = 0
+		s.StdoutTTY = false
 		for pi := range s.Procs {
 			if s.Procs[pi].Stdin != nil {
 				st := *s.Procs[pi].Stdin
 				st.Redirect = false
+				st.Plan, st.EOFWithData = nil, false // a real pipe here delivers the bytes in one piece
 				s.Procs[pi].Stdin = &st
 			}
 		}
